@@ -56,6 +56,15 @@ pub enum ESpecError {
     #[error("Invalid size unit '{0}', must be K or M")]
     InvalidUnit(char),
 
+    /// Specs nested deeper than the parser follows
+    #[error("Specs nested deeper than {limit} levels at position {position}")]
+    NestingTooDeep {
+        /// Position of the spec that exceeds the limit
+        position: usize,
+        /// The nesting limit
+        limit: usize,
+    },
+
     /// Missing encryption parameters
     #[error("Encryption requires key, IV, and nested spec")]
     MissingEncryptionParams,
